@@ -108,6 +108,20 @@ def sort_order_rule(F, chk):
                 flds |= {f for (ad, f) in guards.slice_of_operand(b, a)["fields"] if ad == BACKEND}
             if len(flds) == 1:
                 order.append(list(flds)[0])
+    if order[:2] != ["cluster_id", "backend_id"]:
+        # the other idiom: lexicographic comparison of a key tuple built from the fields (possibly by a private helper):
+        # the order is the order of the tuple's components
+        fb = lib.flat(F, b)
+        for bi, si, st in fb.stmts():
+            rv = st.get("rv")
+            if rv and rv["k"] == "agg" and rv.get("ak") == "tuple" and len(rv["ops"]) >= 2:
+                comp = []
+                for o in rv["ops"]:
+                    fl = {f for (ad, f) in guards.slice_of_operand(fb, o)["fields"] if ad == BACKEND}
+                    comp.append(sorted(fl)[0] if len(fl) == 1 else None)
+                if comp[:2] == ["cluster_id", "backend_id"] or (comp and comp[0] is not None and len([c for c in comp if c]) >= 2):
+                    order = [c for c in comp if c]
+                    break
     key = "Backend::cmp|key prefix"
     if order[:2] == ["cluster_id", "backend_id"]:
         r.ok(key, b.where(), "comparison chain: %s" % order)
